@@ -31,10 +31,12 @@ PROPERTY Terminates
 
 OBJ = {"a": [1, 2, {"b": 3}], "items": [{"n": 1}, {"n": 2}, {"n": 3}], "é": "e-acute", "\\u00e9": "raw", "x y": "decoded", "x%20y": "literal", "s": "str"}
 ARR = [{"a": [1, 2, {"b": 3}], "n": 2}, {"a": [], "n": 0}, "s", {"é": 1, "\\u00e9": 2, "x y": 3, "x%20y": 4}]
-DOCS = {"object": json.dumps(OBJ).encode(), "array": json.dumps(ARR).encode(), "malformed": b'{"a": [1, ', "malformed-scalar": b"tru", "undecodable": b'{"a": "\xff\xfe"}', "empty-file": b""}
+DOCS = {"object": json.dumps(OBJ).encode(), "array": json.dumps(ARR).encode(),
+        # legal encodings of JSON text other than plain UTF-8 (RFC 8259 8.1 allows a reader to accept them; json.loads does)
+        "object-utf16": json.dumps(OBJ).encode("utf-16"), "object-utf8-bom": b"\xef\xbb\xbf" + json.dumps(OBJ).encode(), "malformed": b'{"a": [1, ', "malformed-scalar": b"tru", "undecodable": b'{"a": "\xff\xfe"}', "empty-file": b""}
 
 PATH = {"ok": "$..a[*]", "ok-filter": "$..[?@.n > 1].n", "ok-escape": "$..['\\u00e9']", "ok-empty-result": "$.nope.nada", "ok-empty-query": "", "ok-union": "$..a[*] | $..n | $.s", "ok-intersection": "$..n & $..[?@.n > 1].n",
-        "ok-multiline": "$..[?@.n > 1\n  and @.n < 3\n  or @.n == 1\n].n", "syntax": "$[1,,2]",
+        "ok-multiline": "$..[?@.n > 1\n  and @.n < 3\n  or @.n == 1\n].n", "huge-literal": "$..[?@.n == " + "9" * 5000 + "]", "syntax": "$[1,,2]",
         "type": "$[?length(@.a, @.b) > 1]", "name": "$[?nosuch(@.a)]", "index": "$[9007199254740992]",
         "illtyped-only-when-checked": "$..[?length(@.*) > 1]", "unterminated": "$['a", "bad-regex": "$..[?@.s =~ /(/]"}
 POINTER = {"object": {"ok": "/a/2/b", "ok-root": "", "ok-escape": "/\\u00e9", "ok-uri": "/x%20y", "ok-nonascii": "/é", "unresolvable-key": "/nope",
